@@ -706,6 +706,46 @@ def rule_d11(toks, log):
     return out
 
 
+def _place_path_end(out, i):
+    """index just past a plain place path `id ( . id | . int )*` of real tokens starting at i, or None."""
+    if not (i < len(out) and out[i][0] == 'id' and not out[i][2]
+            and out[i][1] not in ('mut', 'if', 'while', 'match', 'return', 'in', 'let', 'else', 'move', 'unsafe')):
+        return None
+    j = i + 1
+    while j + 1 < len(out) and _is(out[j], '.') and not out[j][2] and out[j + 1][0] in ('id', 'int', 'num', 'lit') \
+            and not out[j + 1][2] and not (j + 2 < len(out) and out[j + 2][0] == 'p' and out[j + 2][1] in ('(', '::')):
+        j += 2
+    return j
+
+
+def rule_d11b(toks, log):
+    """`& P OP & Q` (no parentheses) as a complete expression, P and Q plain place paths `id ( . id | . int )*`, preceded by
+    `=`, `(`, `{`, `}`, `;`, `,` or an annotation and followed by `;`, `)`, `}`, `,` or an annotation
+    ==> `core::ops::Tr::m(& P, & Q)`.  Same reason and same justification as D11 (rational/src/cmp.rs
+    `&a.numerator * &b.denominator`).  Any other shape is left untouched."""
+    out = list(toks)
+    i = 0
+    while i < len(out):
+        t = out[i]
+        if _is(t, '&') and not t[2] \
+                and (i == 0 or out[i - 1][2] or (out[i - 1][0] == 'p' and out[i - 1][1] in ('=', '(', '{', '}', ';', ','))):
+            e1 = _place_path_end(out, i + 1)
+            if e1 is not None and e1 + 1 < len(out) and out[e1][0] == 'p' and out[e1][1] in _D11_OPS and not out[e1][2] \
+                    and _is(out[e1 + 1], '&') and not out[e1 + 1][2]:
+                e2 = _place_path_end(out, e1 + 2)
+                nxt = out[e2] if e2 is not None and e2 < len(out) else None
+                if nxt is not None and (nxt[2] or (nxt[0] == 'p' and nxt[1] in (';', ')', '}', ','))):
+                    op = out[e1][1]
+                    log.append('D11b `%s` -> core::ops::%s(..)' % (_txt(out[i:e2])[:80], _D11_OPS[op].replace(' ', '')))
+                    new = toks_of('core :: ops :: %s (' % _D11_OPS[op], False) + out[i:e1] + [T('p', ',')] + \
+                        out[e1 + 1:e2] + [T('p', ')')]
+                    out = out[:i] + new + out[e2:]
+                    i += len(new)
+                    continue
+        i += 1
+    return out
+
+
 # ---------------------------------------------------------------------------------------
 # D2: hoist a method out of its impl block (directive `#[hoist(Self = T, Output = U, ..)]` in the contract block)
 
@@ -1074,6 +1114,7 @@ def lower(toks, marks, opts=None):
     ts = rule_d4a(ts, log)
     ts = rule_d10(ts, log)
     ts = rule_d11(ts, log)
+    ts = rule_d11b(ts, log)
     ts = rule_d12(ts, log)
     ts = rule_d13(ts, log)
     ts = rule_d14(ts, log)
